@@ -70,7 +70,11 @@ func (s *Sim) LivenessSuffix() {
 		return
 	}
 	if msg := s.convergedBasic(); msg != "" {
-		s.Mon.viol([]string{"C15"}, "converges", "c15.not_converged", "after the fault-free suffix (%d tick rounds): %s", 2*half, msg)
+		sig := "c15.not_converged"
+		if s.Stats.has("conf.one_voter_shrink") {
+			sig = "c15.not_converged/sole_voter_replaced"
+		}
+		s.Mon.viol([]string{"C15"}, "converges", sig, "after the fault-free suffix (%d tick rounds): %s | %s", 2*half, msg, s.dumpNodes())
 		return
 	}
 	if msg := s.suffixObligations(props, reads); msg != "" {
@@ -111,6 +115,7 @@ func (s *Sim) enforceMembership() {
 
 func (s *Sim) runSuffixRounds(rounds int, done func() bool) bool {
 	stable := 0
+	redrawn := map[uint64][2]uint64{}
 	for r := 0; r < rounds; r++ {
 		s.enforceMembership()
 		s.stabilize(100)
@@ -118,16 +123,17 @@ func (s *Sim) runSuffixRounds(rounds int, done func() bool) bool {
 			if !n.Up {
 				continue
 			}
-			before := n.RN.BasicStatus().RaftState
+			// raft re-randomizes its election timeout at every reset (term or
+			// role change); the harness overrides the timeout before every
+			// tick, so it has to re-draw it at the same points.
+			bs := n.RN.BasicStatus()
+			key := [2]uint64{bs.GetTerm(), uint64(bs.RaftState)}
+			if last, ok := redrawn[n.ID]; !ok || last != key {
+				redrawn[n.ID] = key
+				n.Opts.Timeout = s.D.Int(n.Opts.ElectionTick, 2*n.Opts.ElectionTick-1, "suffixtimeout")
+			}
 			s.Step++
 			s.tick(n)
-			if n.Up {
-				after := n.RN.BasicStatus().RaftState
-				if after != before && (after == raft.StateCandidate || after == raft.StatePreCandidate) {
-					// raft re-randomizes its timeout on every campaign
-					n.Opts.Timeout = s.D.Int(n.Opts.ElectionTick, 2*n.Opts.ElectionTick-1, "suffixtimeout")
-				}
-			}
 			s.enforceMembership()
 			s.stabilize(100)
 		}
@@ -295,4 +301,19 @@ func (s *Sim) classifySuffixStart() {
 	if len(s.Net.Blocked) > 0 {
 		s.Stats.inc("live.start_partitioned")
 	}
+}
+
+func (s *Sim) dumpNodes() string {
+	out := fmt.Sprintf("committed conf %s;", s.Reg.latestConf())
+	for _, id := range s.IDs {
+		n := s.Nodes[id]
+		if !n.Up {
+			out += fmt.Sprintf(" [%d down]", id)
+			continue
+		}
+		st := n.RN.VerifState()
+		out += fmt.Sprintf(" [%d %v t%d lead%d log(%d,%d) c%d a%d conf %s pendconf %d xfer %d]", id, st.State, st.Term, st.Lead,
+			st.LastIndex, st.LastTerm, st.Commit, st.Applied, confOfState(&st), st.PendingConfIndex, st.LeadTransferee)
+	}
+	return out
 }
